@@ -731,6 +731,11 @@ func ruleStateRelink(c *Ctx) []Obligation {
 					return isC && call.Call.StaticCallee() == fm
 				})
 				switch {
+				case stale && c.linksResetPerPass(fn, f):
+					// the other way of saying the same: whoever runs the linker clears every link before each pass
+					// (and starts the pass with an empty memo of modules visited), so a link that is found set was
+					// set by this pass
+					obs = append(obs, ok(R, con, c.InstrPos(st), "the link may be kept when it is set, and every caller of the linker clears all links (of the modules and of the submodules) at the start of each pass, inside the repetition: a link that is set was set by this pass"))
 				case stale:
 					obs = append(obs, bad(R, con, c.InstrPos(st), "the link can keep the module it pointed to before: after a newer revision is loaded and Process runs again the statement still points at the old module, unlike a batch load"))
 				case fresh:
@@ -1142,3 +1147,87 @@ func (c *Ctx) varNameAt(fn *ssa.Function, pos token.Pos) string {
 	})
 	return name
 }
+
+// linksResetPerPass: every call of the linker fn from outside itself sits in a loop, and in the loop around that one
+// (the repetition of passes) there are, in front of it, stores of nil into the link field f reached from a range over
+// Modules.Modules and one over Modules.SubModules.
+func (c *Ctx) linksResetPerPass(fn *ssa.Function, f *types.Var) bool {
+	mods := c.Named("yang", "Modules")
+	if mods == nil {
+		return false
+	}
+	fM, fS := FieldVar(mods, "Modules"), FieldVar(mods, "SubModules")
+	node := c.Graph().Nodes[fn]
+	if node == nil {
+		return false
+	}
+	n := 0
+	for _, e := range node.In {
+		caller := e.Caller.Func
+		if caller == fn || e.Site == nil {
+			continue
+		}
+		n++
+		inner := loopHeaderOf(e.Site.Block())
+		if inner == nil || inner.Idom() == nil {
+			return false
+		}
+		outer := loopHeaderOf(inner.Idom())
+		if outer == nil {
+			return false
+		}
+		cleared := map[*types.Var]bool{}
+		for _, st := range storesToField(caller, f) {
+			if !isNilConst(st.Val) {
+				continue
+			}
+			// inside the repetition, and before the pass's calls of the linker
+			in := false
+			for h := loopHeaderOf(st.Block()); h != nil; {
+				if h == outer {
+					in = true
+					break
+				}
+				if h.Idom() == nil {
+					break
+				}
+				h = loopHeaderOf(h.Idom())
+			}
+			if !in || !blockReaches(st.Block(), e.Site.Block(), nil) {
+				continue
+			}
+			// which table the cleared statement's module comes from
+			for _, b := range caller.Blocks {
+				for _, in2 := range b.Instrs {
+					if r, isR := in2.(*ssa.Range); isR && b.Dominates(st.Block()) {
+						operandClosure(r.X, func(x ssa.Value) {
+							if _, lf, _ := loadedField(x); lf == fM || lf == fS {
+								cleared[lf] = true
+							}
+						})
+						if _, lf, _ := loadedField(r.X); lf == fM || lf == fS {
+							cleared[lf] = true
+						}
+						// the tables may be walked through a list of the two
+						if ld, isL := r.X.(*ssa.UnOp); isL {
+							if ia, isIA := ld.X.(*ssa.IndexAddr); isIA {
+								for _, lit := range variadicElems(sliceOf(ia.X)) {
+									if _, lf, _ := loadedField(lit); lf == fM || lf == fS {
+										cleared[lf] = true
+									}
+								}
+							}
+						}
+					}
+				}
+			}
+		}
+		if !(cleared[fM] && cleared[fS]) {
+			return false
+		}
+	}
+	return n > 0
+}
+
+// sliceOf: the slice value behind an element address (x[i] → x).
+func sliceOf(v ssa.Value) ssa.Value { return v }
